@@ -597,6 +597,13 @@ BD_Shape<T>::concatenate_assign(const BD_Shape& y) {
     PPL_ASSERT(OK());
     return;
   }
+  // If `y' is marked empty, then its matrix is meaningless:
+  // adjust the dimension of the vector space and let `*this' become empty.
+  if (y.marked_empty()) {
+    add_space_dimensions_and_embed(y_space_dim);
+    set_empty();
+    return;
+  }
   // First we increase the space dimension of `x' by adding
   // `y.space_dimension()' new dimensions.
   // The matrix for the new system of constraints is obtained
